@@ -36,7 +36,8 @@ from bqskit.ir.gates import HGate
 from bqskit.ir.gates import MeasurementPlaceholder
 from bqskit.ir.gates import Reset
 from bqskit.ir.gates import RZGate
-from bqskit.ir.gates import SGate
+from bqskit.ir.gates import TdgGate
+from bqskit.ir.gates import TGate
 from bqskit.ir.gates import VariableUnitaryGate
 from bqskit.ir.gates import XGate
 from bqskit.ir.operation import Operation
@@ -261,21 +262,20 @@ def transform(kind: str, arg: Any, c: Circuit) -> None:
         c.append_gate(XGate(), q)
         c.append_gate(XGate(), q)
         return
-    if kind == 'shrink':  # drop the whole last cycle (fewer cycles)
-        if c.num_cycles >= 2:
-            last = c.num_cycles - 1
-            pts = sorted({
-                (last, op.location[0])
-                for q in range(c.num_qudits)
-                for op in [c._circuit[last][q]] if op is not None
-            })
-            for p in reversed(pts):
-                c.pop(p)
+    if kind == 'shrink':  # cancel a trailing H.H pair (fewer operations/cycles)
+        for q in range(c.num_qudits):
+            cyc = [i for i in range(c.num_cycles) if c._circuit[i][q] is not None]
+            if len(cyc) >= 2:
+                o1, o2 = c._circuit[cyc[-1]][q], c._circuit[cyc[-2]][q]
+                if isinstance(o1.gate, HGate) and isinstance(o2.gate, HGate):
+                    c.pop((cyc[-1], q))
+                    c.pop((cyc[-2], q))
+                    return
         return
-    if kind == 'grow':  # two more cycles
+    if kind == 'grow':  # two more cycles, equivalent
         q = int(arg) % c.num_qudits
-        c.append_gate(HGate(), q)
-        c.append_gate(SGate(), q)
+        c.append_gate(TGate(), q)
+        c.append_gate(TdgGate(), q)
         return
     if kind == 'perturb':  # bounded perturbation
         delta = float(arg)
